@@ -151,6 +151,28 @@ func (ft *FuncTr) anchored(st *State, preCall *State, at *Term, in ssa.Instructi
 			ft.anchorHit = map[int]bool{}
 		}
 		ft.anchorHit[i] = true
+		if a.Lemma != "" {
+			var lm *LemmaDef
+			for _, l := range ft.w.lemmas {
+				if l.Name == a.Lemma {
+					lm = l
+				}
+			}
+			if lm == nil {
+				return fmt.Errorf("apply %s (%s:%d): no such lemma", a.Lemma, a.C.File, a.C.Line)
+			}
+			envL := &SpecEnv{h: ft.h, w: ft.w, pkg: ft.w.pkgs[lm.Pkg], vars: map[string]SV{}, st: st, old: st, qn: &ft.qn}
+			if envL.pkg == nil {
+				envL.pkg = ft.w.pkgOfFunc(ft.fn)
+			}
+			lt, err := envL.trBool(lm.E)
+			if err != nil {
+				return fmt.Errorf("apply %s (%s:%d): %v", a.Lemma, a.C.File, a.C.Line, err)
+			}
+			ft.assume(at, lt)
+			ft.w.noteUsedLemma(a.Lemma)
+			continue
+		}
 		env := ft.newEnv(st)
 		env.pos = in.Pos()
 		env.pre = preCall
